@@ -573,8 +573,36 @@ fn gen_itp_params(rng: &mut Rng) -> (f64, f64, f64) {
 }
 
 fn random_case(rng: &mut Rng, rep: &mut Report) {
-    let p = gen_problem(rng);
+    let mut p = gen_problem(rng);
     let tol = rng.log10(-12.0, -2.0);
+    // several roots of the sine inside and one END VALUE already below the tolerance (the end point
+    // sits just outside an outer root): a point where |f| < tol is not a root location unless the
+    // sign changes within tol of it - which it does here, so returning that end is right, returning
+    // some other point of the bracket on the strength of the small end value is not
+    if p.f.kind == Kind::Sin && !p.end_root && rng.chance(0.3) {
+        let per = std::f64::consts::PI / p.f.c;
+        let (lo, hi) = (p.a.min(p.b), p.a.max(p.b));
+        if hi - lo > 1.2 * per {
+            let delta = tol * rng.log10(-2.0, -0.3) / (p.f.s.abs() * p.f.c);
+            let left = rng.bool();
+            let new_end = if left {
+                let k = ((p.f.r - lo) / per).floor();
+                p.f.r - k * per - delta
+            } else {
+                let k = ((hi - p.f.r) / per).floor();
+                p.f.r + k * per + delta
+            };
+            let old = if left { lo } else { hi };
+            if (p.f.eval(new_end) < 0.0) == (p.f.eval(old) < 0.0) && p.f.eval(new_end) != 0.0 {
+                if p.a == old {
+                    p.a = new_end;
+                } else {
+                    p.b = new_end;
+                }
+                rep.count("problems/several_roots_and_an_end_value_below_tol", 1);
+            }
+        }
+    }
     let expect = match classify(&p.f, p.a, p.b) {
         Some(e) => e,
         None => {
@@ -866,6 +894,7 @@ pub fn stages(ctx: &Ctx) -> Vec<Stage> {
 pub fn thresholds(ctx: &Ctx, rep: &Report) -> Vec<Threshold> {
     let q = |a: f64, b: f64| ctx.tier.pick(a, b);
     let mut t = vec![];
+    t.push(Threshold { what: "brackets over several roots of a sine with one end value already below the tolerance".into(), required: ctx.tier.pick(500.0, 5_000.0), observed: rep.counter("problems/several_roots_and_an_end_value_below_tol") as f64 });
     for s in ["bisection", "brent", "itp"] {
         t.push(Threshold { what: format!("{}: runs on valid brackets judged by the full oracle", s), required: q(100_000.0, 800_000.0), observed: rep.counter(&format!("{}/valid_runs", s)) as f64 });
         t.push(Threshold { what: format!("{}: same-sign brackets (Err expected)", s), required: q(6_000.0, 60_000.0), observed: rep.counter(&format!("{}/err_expected/same-sign-end-values", s)) as f64 });
